@@ -5,6 +5,8 @@ import (
 	"strings"
 	"time"
 
+	"github.com/sdcio/data-server/pkg/config"
+
 	"verif/sim"
 	"verif/world"
 )
@@ -18,7 +20,9 @@ type HistOpts struct {
 	Allowed  map[string]bool // edit kinds allowed (nil = all)
 	Capture  bool
 	// DevKinds: device front ends to draw from (nil = direct only); see world.Opts.DevKind
-	DevKinds   []string
+	DevKinds []string
+	// Sync: sync configuration of the datastore (nil = none)
+	Sync       *config.Sync
 	AfterStep  func(h *Hist, step int, tx *TxSpec, res *TxResult)
 	BeforeStep func(h *Hist, step int) *TxSpec // may return a custom tx (nil = generate)
 }
@@ -50,7 +54,7 @@ func NewHist(rc *sim.RunCtx, o HistOpts) (*Hist, error) {
 	t := rc.T
 	profile := o.Profiles[t.Choose(len(o.Profiles))]
 	cfg := SwarmCfg(t, profile, o.Allowed)
-	wo := world.Opts{DisableConcurrency: t.Bool(1, 2), CaptureEncodings: o.Capture}
+	wo := world.Opts{DisableConcurrency: t.Bool(1, 2), CaptureEncodings: o.Capture, Sync: o.Sync}
 	if len(o.DevKinds) > 0 {
 		wo.DevKind = o.DevKinds[t.Choose(len(o.DevKinds))]
 		if wo.DevKind == "direct" {
